@@ -74,6 +74,21 @@ Fixpoint sys_run (cfg : hcfg) (cut : bool) (k : nat) (ws : list hstate) (ops : l
 
 Definition sys_init (k : nat) : list hstate := repeat hinit k.
 
+(* connection.rs handle_request, the announce gate: a torrent the access list forbids is answered
+   with a failure by the socket worker; the request never reaches a swarm worker *)
+Definition http_forbidden (mode : acl_mode) (acl : list N) (op : hop) : bool :=
+  match op with
+  | HAnnounce _ hash _ _ _ _ _ _ _ => negb (allows mode acl hash)
+  | _ => false
+  end.
+
+Inductive greply := GOut (o : hout) | GFailureNotAllowed.
+
+Definition sys_gate (mode : acl_mode) (acl : list N) (cfg : hcfg) (cut : bool) (k : nat) (ws : list hstate) (op : hop)
+  : outcome (list hstate * greply) :=
+  if http_forbidden mode acl op then Ok (ws, GFailureNotAllowed)
+  else let! (ws', out) := sys_step cfg cut k ws op in Ok (ws', GOut out).
+
 (* ---- framing in the reused response buffer ---- *)
 Section Reuse.
   Variables (HA HB HC : list N) (buf_size : nat).
